@@ -155,7 +155,72 @@ def bounded_stdlib(tier, seed):
                                                           import_failure_is_violation=True), tier, seed)
 
 
-BOUNDED = [bounded_c01, bounded_checked, bounded_stdlib]
+def _sweep_worker(job):
+    """Instrument (not run) the given source files with one set of adapters; returns [(file, error)]."""
+    paths, which = job
+    import traceback
+    from pynguin.analyses.constants import ConstantPool, DynamicConstantProvider, EmptyConstantProvider
+    from pynguin.instrumentation.tracer import SubjectProperties
+    from pynguin.instrumentation.transformer import InstrumentationTransformer
+    from pynguin.instrumentation.version import (BranchCoverageInstrumentation, CheckedCoverageInstrumentation,
+                                                 DynamicSeedingInstrumentation, LineCoverageInstrumentation)
+    bad, n = [], 0
+    for path in paths:
+        try:
+            with open(path, encoding="utf-8") as f:
+                code = compile(f.read(), path, "exec")
+        except Exception:  # noqa: BLE001, S112
+            continue
+        n += 1
+        sp = SubjectProperties()
+        if which == "CHECKED":
+            adapters = [CheckedCoverageInstrumentation(sp)]
+        else:
+            dcp = DynamicConstantProvider(ConstantPool(), EmptyConstantProvider(), probability=0, max_constant_length=1)
+            adapters = [BranchCoverageInstrumentation(sp), LineCoverageInstrumentation(sp), DynamicSeedingInstrumentation(dcp)]
+        try:
+            InstrumentationTransformer(sp, adapters).instrument_code(code, "m")
+        except BaseException as e:  # noqa: BLE001
+            tb = traceback.extract_tb(e.__traceback__)[-1]
+            bad.append((path, f"{type(e).__name__}: {str(e)[:120]} (in {tb.name})"))
+    return n, bad
+
+
+def _check_sweep(part: Part, tier, seed):
+    import multiprocessing as mp
+    import os, random, sysconfig  # noqa: E401
+    lib = sysconfig.get_paths()["stdlib"]
+    skip = {"test", "tests", "site-packages", "idlelib", "lib2to3", "__pycache__", "turtledemo", "tkinter", "ensurepip"}
+    files = []
+    for root, dirs, fs in os.walk(lib):
+        dirs[:] = sorted(d for d in dirs if d not in skip and not d.startswith("config-"))
+        files += [os.path.join(root, f) for f in sorted(fs) if f.endswith(".py")]
+    if tier != "thorough":
+        rng = random.Random(seed)
+        files = rng.sample([f for f in files if os.path.getsize(f) < 60000], 64)
+    jobs = [(files[i::16], which) for which in ("BRANCH+LINE+SEEDING", "CHECKED") for i in range(16)]
+    with mp.get_context("fork").Pool(16) as pool:
+        results = pool.map(_sweep_worker, jobs)
+    for (paths, which), (n, bad) in zip(jobs, results):
+        part.inputs_run += n
+        part.nontrivial += n
+        for path, err in bad:
+            part.violation("instrumentation never raises: every syntactically valid module can be instrumented",
+                           f"not-instrumentable:{which}:{err.split(':')[0]}",
+                           {"file": os.path.relpath(path, lib), "adapters": which, "error": err},
+                           target="pynguin.instrumentation.transformer:InstrumentationTransformer.instrument_code")
+
+
+def bounded_sweep(tier, seed):
+    p = Part("C01", "stdlib-instrumentability", ["pynguin.instrumentation.transformer:InstrumentationTransformer.instrument_code"],
+             scope="the code objects of a seeded sample of 64 (thorough: all ~510) .py files of the running interpreter's standard "
+                   "library (tests, idlelib, tkinter, lib2to3 left out) are instrumented - not executed - once with branch + line + "
+                   "dynamic-seeding adapters and once with the checked-coverage adapter; any exception is a violation",
+             bound="instrumentation only, no execution")
+    return guarded(p, _check_sweep, tier, seed)
+
+
+BOUNDED = [bounded_c01, bounded_checked, bounded_stdlib, bounded_sweep]
 META = {"level": "other", "explanation": "bounded differential contract check: the uninstrumented run is the oracle",
         "rule": "one case per (function, argument vector, metric set)"}
 
